@@ -64,6 +64,62 @@ SEEDS = {
            "collision through a skipped optional node with the optional-bearing declaration inserted second (MEASure? then MEASure:[VOLTage]?)"),
  "C14-B": ("microscpi-macros lib.rs: insertion errors become compile errors only for user functions; collisions found while inserting a built-in are dropped",
            "StandardCommands/ErrorCommands enabled and a user declaration spellable like a built-in (SYSTem:ERRor?)"),
+ "C01-C": ("macro emits children sorted by upper-case byte order and Node::child bisects with a lower-casing comparison (round 2; same idea as C01-B, other sibling pair)",
+           "sibling mnemonics that first differ at a '_'-versus-letter position (OUT_A next to OUTPut): a correct spelling gets -113"),
+ "C01-D": ("microscpi-macros lib.rs extract_commands: a handler's id is its index among all functions of the impl block, built-ins still numbered by the count of #[scpi] functions",
+           "a method without #[scpi] in front of a handler in the same impl block and StandardCommands/ErrorCommands requested: duplicate match arm, the user arm shadows the built-in"),
+ "C02-C": ("interface.rs run(): after an execution error `input = i; continue;` skips the path update and the reset at the terminator",
+           "a unit that parses but fails at execution followed by a relative unit, or as last unit of a message followed by another message in the same run buffer"),
+ "C02-D": ("parser.rs: leading ':' no longer sets the returned header to the root (round 2; same defect as D8 / C02-A)",
+           "compound unit, then ':X' with a single mnemonic, then a relative unit"),
+ "C03-C": ("value.rs: f32 conversion delegates to the f64 conversion and narrows (round 2; same as C03-A)",
+           "f32 parameter and a literal within half an f64 ulp of an f32 midpoint"),
+ "C03-D": ("microscpi-macros lib.rs: generated arms use args.first_chunk::<N>() instead of the length check",
+           "a well-formed parameter list longer than the declaration: surplus parameters silently dropped, handler runs"),
+ "C04-C": ("response.rs: integral reals below 2^24 / 2^53 are formatted through i64",
+           "the value -0.0 (alone or inside tuples/lists): written as 0, decodes to +0.0"),
+ "C04-D": ("response.rs: heapless writer's write_char requires 4 free bytes (UTF-8 scratch length instead of c.len_utf8())",
+           "a response of length L into a heapless writer of capacity L..L+2 (also process's N-byte buffer): terminator / quote / comma lost although there is room"),
+ "C05-C": ("parser.rs exponent(): range check parses the exponent digits with parse::<u32>().unwrap()",
+           "a decimal parameter whose exponent has a value of 2^32 or more (1E4294967296): panic"),
+ "C05-D": ("interface.rs process(): overflow reset moved into a 'no newline in the new data' fast path plus `if count == 0 { continue }`",
+           "a message longer than N whose buffer-filling read contains a newline inside a string/block: read into an empty buffer forever"),
+ "C06-C": ("parser.rs/interface.rs: resynchronisation after a parse error uses a terminator search that skips newlines inside quotes but does not know blocks",
+           "a syntax error or undefined header in a message that also carries a block whose payload holds an unbalanced quote (FOO #13a\"b): later messages never run / the error is repeated"),
+ "C06-D": ("interface.rs run(): the header path advances only when execute() succeeded",
+           "an execution-time fault in a unit with a compound header that is not the last unit, followed by a relative unit: wrong handler or a second error"),
+ "C07-C": ("interface.rs process(): one write/flush per read instead of per message (round 2; same as C07-B)",
+           "several queries terminated within one read whose responses together exceed N"),
+ "C07-D": ("interface.rs process(): a flag 'this read contains a quote or #' gates the completeness check but is cleared per message",
+           "a message whose later unit holds a newline in a string, preceded by another complete message whose terminator arrives in the same read as the opening quote"),
+ "C08-C": ("interface.rs process(): completeness check skipped when the newly read bytes contain no quote or '#'",
+           "payload with embedded newline in a unit after the first, relative header, the opening quote delivered by an earlier read than the embedded newline (or two consecutive newlines)"),
+ "C08-D": ("parser.rs: single- and double-quoted string parsers merged; payload scan stops at either quote",
+           "a string payload containing the other quote character"),
+ "C09-C": ("error_queue.rs: ring buffer, overflow marker written at slot len-1, head reset when drained (round 2; same idea as C09-A)",
+           "capacity >= 2, a read that leaves the queue non-empty, refill, overflow"),
+ "C09-D": ("interface.rs run(): execution-time command errors (-100..-199) discard the rest of the program message",
+           "a compound message with such a fault before other units. NOT a violation under the given properties: C06 explicitly allows 'all or none of the units after it'; see DESIGN.md 8.1"),
+ "C10-C": ("interface.rs process(): `break` at a newline inside a payload (round 2; same as C10-A / C08-B)",
+           "embedded newline and real terminator in the same read"),
+ "C10-D": ("interface.rs process(): flush is still issued after a failed write, first error returned",
+           "a transport fault exactly at a write call: one more transport call follows"),
+ "C11-C": ("parser.rs program_mnemonic: mnemonics longer than 12 characters rejected although the macro registers them",
+           "the long form of a node whose long form exceeds 12 characters"),
+ "C11-D": ("parser.rs arguments(): early exit pre-check uses u8::is_ascii_whitespace instead of the 488.2 class",
+           "white space byte 0-8, 11 or 14-31 between a parameter and the following comma"),
+ "C12-C": ("parser.rs: new '#0' indefinite block ends at the LAST newline of the input slice",
+           "'#0' data followed by another newline in the same slice: accepted call depends on bytes after the terminator"),
+ "C12-D": ("parser.rs arguments(): `while let Ok(..) = separator.and_then(argument)` swallows Incomplete (round 2; same as C12-A)",
+           "string/block with a newline as second or later parameter"),
+ "C13-C": ("response.rs: heapless write_fmt formats through alloc::fmt::format when fewer than 24 bytes are free",
+           "a numeric response into a heapless writer with < 24 free bytes (N < 24 or several queries in one message)"),
+ "C13-D": ("microscpi-macros lib.rs: generated arm boxes the future of async handlers with more than 4 parameters",
+           "an async handler with 5..10 parameters dispatched with the right count"),
+ "C14-C": ("microscpi-macros tree.rs: per-definition set of visited node ids also holds interior nodes",
+           "a declaration with trailing optional node(s) declared after an identically spelled one of the same kind (TRIGger:DELay then TRIGger:DELay:[TIME])"),
+ "C14-D": ("microscpi-macros lib.rs: insertion errors reported only for user functions (round 2; same as C14-B)",
+           "a user declaration that meets a built-in with StandardCommands/ErrorCommands"),
 }
 
 
